@@ -4,6 +4,7 @@ CONSTANTS
   JoinRaceFixed = TRUE
   UrgentClose = FALSE
   JobsLast = FALSE
+  NoPush = {FALSE, TRUE}
 VIEW View
 INVARIANTS TypeOK C04 C05 C06 C07_Count C08 C26_Safe C26_Exact C07_Order C07_Prefix
 CHECK_DEADLOCK FALSE
